@@ -28,6 +28,7 @@ Conc(t) ==
     [] t = "CLB"  -> <<"(", "?", ":", "[", "]", "(", "a", "]", "+", ")">>   \* a literal ']' first in a class, then '('
     [] t = "BS"   -> <<"\\", "\\">>                                 \* regex::escape of a literal backslash
     [] t = "E("   -> <<"\\", "(">>                                  \* regex::escape("(")
+    [] t = "~u~"  -> <<"~u~">>     \* a second two-byte character with the SAME first UTF-8 byte as ~e~ (the harness substitutes both)
     [] t = "~e~"  -> <<"~e~">>     \* a non-ASCII literal (the harness substitutes a 2-byte character): ONE character, two bytes
     [] t = "ELW"  -> <<"(", "?", ":", "~e~", "[", "a", "-", "b", "]", "+", ")">>   \* non-ASCII text inside a marker group
     [] t = "BIGW" -> <<"(", "?", ":", "\\", "w", "{", "1", ",", "5", "0", "}", ")">>  \* a Unicode class with a counted repetition: a program of several MiB
